@@ -37,3 +37,6 @@ fn t_c12_select_protocol_version_twin() {
         }
     }
 }
+
+#[cfg(verif_replay)]
+include!("/verif/.cache/replay/acceptor__verif.rs");
